@@ -315,5 +315,4 @@ def gen(rng, tier):
     yield from digit_count_boundaries(rng, tier)
     yield from wide(rng, tier)
     if tier == "thorough":
-        yield from _ws.print_(rng)
         yield from sweep_print(rng)
